@@ -250,6 +250,19 @@ Proof.
     cbn [fst]; apply alookup_ainsert_other, H.
 Qed.
 
+(* a value that RETURNS is a change again: v -> v' -> v emits at both steps, whatever the counts were *)
+Lemma value_returns m k v v' c mx :
+  alookup beq k m = Some (v, c) -> v <> v' ->
+  run_entries m [(k, v'); (k, v)] mx = [true; true].
+Proof.
+  intros H Hne. cbn [run_entries].
+  destruct (update_changed m k v' v c mx H Hne) as [Hb Hl].
+  destruct (update_entry m k v' mx) as [m1 b1] eqn:E1. cbn [fst snd] in Hb, Hl. subst b1.
+  assert (Hne' : v' <> v) by (intro X; apply Hne; symmetry; exact X).
+  destruct (update_changed m1 k v v' 1 mx Hl Hne') as [Hb2 _].
+  destruct (update_entry m1 k v mx) as [m2 b2] eqn:E2. cbn [snd] in Hb2. subst b2. reflexivity.
+Qed.
+
 (* after an emission (count 1), repeating the same value n times emits exactly at every
    mx-th repetition: the j-th repetition (j = 1..n) emits iff (c + j - 1) reaches mx ... stated
    through the count: starting from count c (1 <= c <= mx), the next emission happens after
